@@ -147,6 +147,9 @@ def check(ctx):
     _r20_4(ctx)
     _r20_5(ctx)
     _r20_6(ctx)
+    # R20.7 a poll / send that finds the ring empty / full gives up when the caller's callback says so (the channels pass `false`): shared with C16 R16.4
+    import importlib
+    importlib.import_module("props.C16").check_callback_polarity(util.PrefixedCtx(ctx, "R20.7"), "R16.4")
 
 
 def _r20_6(ctx):
